@@ -50,7 +50,7 @@ CHECKS = {
                      "MT) must be the one the specification classifies, and after a fatal error nothing may change; the model "
                      "named by a Panic raised at each position of a model hierarchy is decided on the Bench layer "
                      "(Bench.tla, hpanic benches).",
-                design="6/C11", note=SIMCORE_NOTE + " Time-out uses wall-clock margins (300 ms vs 1200 ms)."),
+                design="6/C11", note=SIMCORE_NOTE + " Time-out uses wall-clock margins (500 ms vs 2000 ms)."),
     "C18": dict(spec="SimCore.tla (SyncMonotone, SyncBeforeCompute, SyncCoversNow, SyncOncePerNewTime, OutOfSyncGates)",
                 text="TLC checks the synchronisation discipline for all event sets, step/step_until partitions, scripted "
                      "lags and tolerances on bounded instances; a recording Clock in the harness logs every synchronize "
